@@ -857,7 +857,7 @@ impl Property for C11 {
     }
     fn generate(&self, rng: &mut Rng, _case: u64) -> Scenario {
         if rng.chance(30) {
-            return super::watch::gen_watch(rng, &super::watch::WatchOpts { service_bias: true, fail_pct: 25, watch_fail_pct: 15, ..Default::default() });
+            return super::watch::gen_watch(rng, &super::watch::WatchOpts { service_bias: true, fail_pct: 25, watch_fail_pct: 35, ..Default::default() });
         }
         let mut sc = gen::gen_graph(rng, &GraphOpts { max_n: 8, ..Default::default() });
         // make services more frequent
